@@ -25,6 +25,7 @@ type hop struct {
 	T   string `json:"t,omitempty"`   // ev: record type; noise: nosession|unset|unknown_ses
 	Cut int    `json:"cut,omitempty"` // clean: -1 far past; n>=0: instant just before op n (len = after all so far); 1<<20 far future
 	Old int    `json:"old,omitempty"` // open: the LOGIN record's old-ses names session Old (0 = unset); the correlator must not care
+	PP  int    `json:"pp,omitempty"`  // open: the process's parent is pid PP (0 = init) — e.g. a child of another login's sshd; the correlator must not care
 }
 
 type history struct {
@@ -208,6 +209,9 @@ func apiEvent(i int, o hop) *aucoalesce.Event {
 		}
 	}
 	e.Process.PPID = "1"
+	if o.K == "open" && o.PP != 0 {
+		e.Process.PPID = strconv.Itoa(pidValue(o.PP))
+	}
 	return e
 }
 
